@@ -85,13 +85,16 @@ def _second_opinion(pid, repo, tier, seed, rep):
     anchors = anchors_from_rules(VERIF)
     all_adopted = []
     for form, opts in (("private helpers inlined", {}),
-                       ("private helpers inlined, append loops written as comprehensions", {"comprehensions": True})):
+                       ("private helpers inlined, append loops written as comprehensions", {"comprehensions": True}),
+                       ("locals renamed to the rule vocabulary", {"inline": False, "derename": True}),
+                       ("private helpers inlined, append loops written as comprehensions, locals renamed to the rule vocabulary",
+                        {"comprehensions": True, "derename": True})):
         if not contested:
             break
         d = tempfile.mkdtemp(prefix="qsa_norm_")
         try:
             stats = normalise_repo(repo, d, anchors, **opts)
-            if not (stats["calls_inlined"] or stats.get("loops_rewritten")):
+            if not (stats["calls_inlined"] or stats.get("loops_rewritten") or stats.get("locals_renamed")):
                 continue
             code2, rep2 = run_property(pid, d, "quick", seed, write=False, quiet=True, selftest=False, _normalise=False)
             adopted = []
@@ -114,8 +117,9 @@ def _second_opinion(pid, repo, tier, seed, rep):
                 adopted.append(r)
             if adopted:
                 rep.note("rule(s) %s were contested on the source as written and are decided on its normal form (%s: %d helper calls inlined, "
-                         "%d loops rewritten in %d files)" % (", ".join(adopted), form, stats["calls_inlined"], stats.get("loops_rewritten", 0),
-                                                             stats["files_changed"]))
+                         "%d loops rewritten, %d locals renamed in %d files)" % (", ".join(adopted), form, stats["calls_inlined"],
+                                                                               stats.get("loops_rewritten", 0), stats.get("locals_renamed", 0),
+                                                                               stats["files_changed"]))
                 all_adopted += adopted
                 rep.stats["normal_form"] = dict(stats, rules_adopted=list(all_adopted))
                 # a rule adopted with violations stays as it is; the others leave the contested set
